@@ -316,10 +316,52 @@ def confirm_in_fresh_process(pid, path):
     return p.returncode == 1, p.stdout + p.stderr
 
 
+DEFAULT_FUZZ = {"shards": 8, "runs": 200000, "wall": 420}
+
+
+def run_fuzz_shards(pid, tier, seed, fz, active_ids):
+    """-> (list of shard results, note) or (None, error text)"""
+    env = dict(os.environ, VERIF_ACTIVE_KNOWN=json.dumps(active_ids))
+    probe = subprocess.run([sys.executable, "-c", "import atheris"], capture_output=True, text=True, env=env)
+    if probe.returncode != 0:
+        return [], "skipped: atheris is not importable (tools/setup.py installs it from the offline wheelhouse)"
+    import tempfile
+    tmpd = tempfile.mkdtemp(prefix="vffuzz_")
+    procs = []
+    for i in range(fz["shards"]):
+        outp = os.path.join(tmpd, "shard%d.json" % i)
+        cmd = [sys.executable, "-m", "vf.fuzzshard", pid, tier, str(seed), str(i), str(fz["runs"]), str(fz["wall"]), outp]
+        procs.append((i, outp, subprocess.Popen(cmd, cwd=VERIF, env=env, stdout=subprocess.PIPE, stderr=subprocess.STDOUT,
+                                                text=True)))
+    res = []
+    err = None
+    for i, outp, p in procs:
+        try:
+            txt, _ = p.communicate(timeout=fz["wall"] + 300)
+        except subprocess.TimeoutExpired:
+            p.kill()
+            txt, _ = p.communicate()
+        if p.returncode != 0 or not os.path.exists(outp):
+            err = "shard %d exited with %s\n%s" % (i, p.returncode, (txt or "")[-3000:])
+            continue
+        with open(outp) as f:
+            res.append(json.load(f))
+    import shutil
+    shutil.rmtree(tmpd, ignore_errors=True)
+    if err:
+        return None, err
+    note = "%d libFuzzer shards over Hypothesis' byte stream (atheris, modelx instrumented): %d cases, %d failures" % (
+        len(res), sum(r["evaluations"] for r in res), sum(len(r["failures"]) for r in res))
+    return res, note
+
+
 def run_property(pid, tier, seed):
     t0 = time.time()
     prop = importlib.import_module("vf.props." + pid.lower())
     plan = prop.plan(tier)
+    scale = float(os.environ.get("VERIF_SCALE", "1"))       # development knob: shrink the budgets of a tier
+    if scale != 1:
+        plan = dict(plan, examples=max(1, int(plan.get("examples", 0) * scale)))
     violations = []
 
     active, regress, lines = probe_findings(prop)
@@ -357,6 +399,18 @@ def run_property(pid, tier, seed):
         print("HARNESS ERROR in shard %s:\n%s" % (herr[0]["idx"], herr[0]["harness_error"]))
         return 2
 
+    # coverage-guided shards (thorough tier): libFuzzer mutates the byte stream Hypothesis decodes into a case
+    fz = plan.get("fuzz", DEFAULT_FUZZ if tier == "thorough" and getattr(prop, "strategy", None) else None)
+    fuzz_note = None
+    if fz and scale != 1:
+        fz = dict(fz, wall=max(10, fz["wall"] * scale))
+    if fz and not any(r["failures"] for r in results):
+        fres, fuzz_note = run_fuzz_shards(pid, tier, seed, fz, [e["id"] for e in active])
+        if fres is None:
+            print("HARNESS ERROR in a coverage-guided shard:\n%s" % fuzz_note)
+            return 2
+        results = results + fres
+
     cov = {
         "evaluations": sum(r["evaluations"] for r in results),
         "discarded_out_of_domain": sum(r["discarded"] for r in results),
@@ -370,6 +424,8 @@ def run_property(pid, tier, seed):
         "budget_exhausted": any(r["budget_exhausted"] for r in results),
         "shards": shards,
     }
+    if fuzz_note:
+        cov["coverage_guided"] = fuzz_note
     nt = set()
     for r in results:
         nt.update(r["nontrivial"])
